@@ -123,14 +123,15 @@ def _reads(v, t, mask):
 MASKS = (0, 1, 2, 4, 8, 16, 32, 64, 128, 255, 3, 192)
 
 
-def _sibling_slots(e, slots):
-    """Another value of the same type: flags flipped, alternative/count selectors moved on."""
+def _sibling_slots(e, slots, flip_flags):
+    """Another value of the same type: alternative/count selectors moved on; optionally the presence flags flipped as well."""
     out = dict(slots)
     for k, spec in e.params.items():
         if k not in out:
             continue
         if spec[0] == "bool":
-            out[k] = not out[k]
+            if flip_flags:
+                out[k] = not out[k]
         elif k in ("w", "k", "k2") and spec[0] == "int":
             out[k] = spec[1] + (out[k] - spec[1] + 1) % (spec[2] - spec[1] + 1)
     return out
@@ -144,12 +145,13 @@ def history(sid, route, rot, mi, interfere=False, **slots):
     if interfere:
         # another value of the same type (same type object) goes through the DER and CER encoders first: what the encoders did for it
         # must not influence the bytes of this value
-        other = build(t, e.mk(**_sibling_slots(e, slots)))
-        try:
-            der_encoder.encode(other)
-            cer_encoder.encode(other)
-        except error.PyAsn1Error:
-            pass
+        for flip in (False, True):
+            try:
+                other = build(t, e.mk(**_sibling_slots(e, slots, flip)))
+                der_encoder.encode(other)
+                cer_encoder.encode(other)
+            except (Skip, error.PyAsn1Error):
+                pass
     v1 = build(t, av)
     d1 = der_encoder.encode(v1)
     c1 = cer_encoder.encode(v1)
@@ -205,7 +207,11 @@ for e in all_entries():
         if r != 6:
             sh["mi"] = I(8, 9)  # one read (getComponentByPosition sweep) or all of them; the full selection runs on route 6
             sh["interfere"] = C(False)  # another value of the type encoded first: on the direct route only
-        shards.append(sh)
+            shards.append(sh)
+        else:
+            # own shard (= own process): state an encoder might keep per type must not have been touched by other paths before
+            shards.append(dict(sh, interfere=C(False)))
+            shards.append(dict(sh, interfere=C(True), mi=C(0)))
     OBLIGATIONS.append(entry_obl("history", history, e, extra={"route": I(0, 8), "rot": I(0, 2), "mi": I(0, len(MASKS) - 1), "interfere": B}, extra_thorough={"mi": I(0, len(MASKS) + 255)},
                                  narrow=True, budget=120, thorough_budget=400, extra_shards=shards, tiers=("quick", "thorough") if quick else ("thorough",)))
 
